@@ -298,11 +298,35 @@ def r_ovf(f):
             n += 1
             d = Dfx(b)
             bad = None
+            # blocks in which n is known to be below some quantity that does not depend on n (`if n >= remaining { .. return }`)
+            dom_ = b.dominators()
+            bounded_succ = []
+            for sb, bl in enumerate(b.blocks):
+                tt = bl["term"]
+                if bl["cleanup"] or not tt or tt["k"] != "switch":
+                    continue
+                e = strip(d.expr(tt["discr"]))
+                neg = False
+                while e[0] == "un" and e[1] == "Not":
+                    neg = not neg; e = strip(e[2])
+                if e[0] != "bin" or e[1] not in ("Lt", "Le", "Gt", "Ge"):
+                    continue
+                ln_, rn_ = strip(e[2]) == ("param", 2), strip(e[3]) == ("param", 2)
+                if ln_ == rn_ or any(x == ("param", 2) for x in walk(e[3] if ln_ else e[2])):
+                    continue
+                n_small_when_true = (e[1] in ("Lt", "Le")) == ln_      # n < X  /  X > n
+                if neg:
+                    n_small_when_true = not n_small_when_true
+                tm = dict((int(a), b2) for a, b2 in tt["targets"])
+                t_succ, f_succ = (tt["otherwise"] if 0 in tm else tm.get(1)), tm.get(0, tt["otherwise"])
+                bounded_succ.append(t_succ if n_small_when_true else f_succ)
             for bi, si, st in b.stmts():
                 if st["k"] == "assign" and st["rv"]["k"] == "binop" and re.match(r"^(Mul|Add|Shl)", st["rv"]["op"]):
                     for o in (st["rv"]["l"], st["rv"]["r"]):
                         e = d.expr(o)
                         if any(x == ("param", 2) for x in walk(e)):
+                            if any(bs is not None and (bs == bi or bs in dom_.get(bi, set())) for bs in bounded_succ):
+                                continue          # n is bounded by a remaining-count on this path: the product cannot wrap
                             bad = (st["span"], st["rv"]["op"])
             used_checked = []
             flag_used = False
